@@ -9,7 +9,7 @@
 //   M1c     `ValidationContext::new`
 //   M1      `main` (src/main.rs), whole function; its last statements are unit V8g of group report (rule
 //           SLICE-CALL). The process environment is a set of uninterpreted "world" functions; the callees
-//           under contract elsewhere are stubs (F1, PCn, V10, V8g with their proven contracts; Da, B7, L2 as
+//           under contract elsewhere are stubs (F1, PCn, V10, V8g, V8p with their proven contracts; Da, B7, L2 as
 //           uninterpreted `*_spec` functions); the C11/C14/C15/C16 statements are obligations at the call
 //           sites (labels `M1.post.*` on the stubs' preconditions) plus postconditions on the result.
 // Properties: C14 (A2, A3, M1), C15 (A4, A5, M2, FS2, FS3, M1), C16 (A1, M1), C11 (M1), C13 (M1: every `?`),
@@ -655,6 +655,9 @@ pub mod serde_json {
             expected_list_report() is Some && K::map_shows(v@, expected_list_report().unwrap()), // [M1.post.list_writes_report_of_the_runs_blocks]
         ensures
             r is Ok <==> keys_serialisable(v@) && stdout_write_ok_spec(v@),
+            // (the third precondition once more: it adds nothing, it only keeps the term available as a witness for
+            // `M1.post.list_*` after the call)
+            K::map_shows(v@, expected_list_report().unwrap()),
     { unimplemented!() }
 }
 
@@ -840,6 +843,7 @@ pub mod validators {
         assert(Some(context.blocks@) == expected_blocks()); // [M1.post.validation_on_the_runs_blocks]
     }
     main_run_and_report(context, sync_validators, async_validators)?;
+//@macro rule=E1 name=anyhow to=<<anyhow::verif_err()>> optional=1
 //@chain rule=E13 find=<<.keys().collect()>> to=verif_keys_collect_set recvprefix=<<&>> optional=1
 //@chain rule=E13 find=<<.is_terminal()>> to=verif_is_terminal count=all optional=1
 //@chain rule=E13 find=<<.read_to_end(>> to=verif_stdin_read_to_end count=all optional=1
